@@ -40,6 +40,55 @@ mod interpolate {
         Some((num, 1, e, e))
     }
 
+    /// Executable form of the library's expansion (regex-automata util::interpolate::bytes), from its
+    /// documentation: text up to the next `$` is copied; `$$` is a literal `$`; a `$` that does not start
+    /// a reference is copied; a reference appends the group (here: a marker byte 0xF0|index) or, for an
+    /// unknown name, nothing.
+    #[cfg(any(kani, test))]
+    pub(crate) fn spec_expand(mut t: &[u8], out: &mut Vec<u8>) {
+        while !t.is_empty() {
+            if t[0] != b'$' {
+                out.push(t[0]);
+                t = &t[1..];
+                continue;
+            }
+            if t.len() >= 2 && t[1] == b'$' {
+                out.push(b'$');
+                t = &t[2..];
+                continue;
+            }
+            match spec_cap_ref(t) {
+                None => {
+                    out.push(b'$');
+                    t = &t[1..];
+                }
+                Some((num, s, e, end)) => {
+                    if num {
+                        let mut v: usize = 0;
+                        let mut k = s;
+                        while k < e {
+                            v = v.wrapping_mul(10).wrapping_add((t[k] - b'0') as usize);
+                            k += 1;
+                        }
+                        out.push(0xF0 | (v & 7) as u8);
+                    } else if &t[s..e] == b"n" {
+                        out.push(0xF1);
+                    }
+                    t = &t[end..];
+                }
+            }
+        }
+    }
+
+    #[cfg(any(kani, test))]
+    pub(crate) fn expand_agrees(t: &[u8]) -> bool {
+        let mut a = Vec::new();
+        interpolate(t, |i, d: &mut Vec<u8>| d.push(0xF0 | (i & 7) as u8), |name| if name == "n" { Some(1) } else { None }, &mut a);
+        let mut b = Vec::new();
+        spec_expand(t, &mut b);
+        a == b
+    }
+
     #[cfg(any(kani, test))]
     pub(crate) fn agree(rep: &[u8]) -> bool {
         match (find_cap_ref(rep), spec_cap_ref(rep)) {
@@ -65,6 +114,18 @@ mod interpolate {
             let b: u8 = kani::any();
             let want = (b >= b'0' && b <= b'9') || (b >= b'a' && b <= b'z') || (b >= b'A' && b <= b'Z') || b == b'_';
             assert!(is_valid_cap_letter(&b) == want);
+        }
+
+        /// bounded: the whole expansion loop on every template of up to 3 bytes
+        #[kani::proof]
+        #[kani::unwind(6)]
+        fn interpolate_matches_library_expansion_len3() {
+            let t: [u8; 3] = kani::any();
+            let n: usize = kani::any();
+            kani::assume(n <= 3);
+            // braced references are the subject of the find_cap_ref harnesses (one listed known finding)
+            kani::assume(t[0] != b'{' && t[1] != b'{' && t[2] != b'{');
+            assert!(expand_agrees(&t[..n]));
         }
 
         /// bounded: every template of up to 4 bytes
@@ -96,11 +157,27 @@ mod interpolate {
             assert!(agree(b"$foo"));
             assert!(agree(b"${42}a"));
             assert!(agree(b"${42"));
+            assert!(expand_agrees(b"a$1b$$"));
+            assert!(expand_agrees(b"$n$x$"));
+        }
+        #[test]
+        #[ignore]
+        fn exhaustive_debug() {
+            // debugging aid for the harness author: NOT a registered check
+            let alpha: [u8; 8] = [b'$', b'{', b'}', b'1', b'n', b'a', b'_', 0xFF];
+            for a in alpha { for b in alpha { for c in alpha {
+                let t = [a, b, c];
+                for n in 0..=3 {
+                    if t[..n].contains(&b'{') { continue; }
+                    assert!(expand_agrees(&t[..n]), "disagree on {:?}", &t[..n]);
+                }
+            }}}
         }
         #[test]
         fn replay() {
             if let Ok(hex) = std::env::var("VERIF_REPLAY_HEX") {
                 let bytes: Vec<u8> = (0..hex.len() / 2).map(|i| u8::from_str_radix(&hex[2 * i..2 * i + 2], 16).unwrap()).collect();
+                assert!(expand_agrees(&bytes) || !agree(&bytes), "interpolate disagrees with the library expansion on {:?}", String::from_utf8_lossy(&bytes));
                 assert!(agree(&bytes), "find_cap_ref disagrees with the library grammar on {:?}", String::from_utf8_lossy(&bytes));
             }
         }
